@@ -31,6 +31,11 @@ class MappingMutator(CollectionAttrMutator):
             raise ValueError(
                 f"Attempted to add an invalid item `{repr(item)}` to `{self.attr_spec.qualified_name}`. Expected item of type `{type_label(self.attr_spec.item_type)}`."
             )
+        type_args = getattr(self.attr_spec.type, "__args__", ())
+        if len(type_args) == 2 and not check_type(index, type_args[0]):
+            raise ValueError(
+                f"Attempted to add an item with invalid key `{repr(index)}` to `{self.attr_spec.qualified_name}`. Expected key of type `{type_label(type_args[0])}`."
+            )
         self.collection[index] = item
 
     def add_item(
